@@ -152,6 +152,7 @@ func TestSim(t *testing.T) {
 		die(2, "harness: local time zone must be UTC (TZ=UTC), got %s%+d", name, off)
 	}
 	exec.VerifStep = stepHook
+	startWatchdog()
 	// Replay-type roles can run without ever touching the pool or the
 	// generator, so that the process history is the scenario alone.
 	if os.Getenv("SIM_NOPOOL") == "" || (role != "seq" && role != "replay") {
